@@ -315,8 +315,8 @@ def worker(arg):
 
 def check(tier, seed):
     t = pc.trees("plain", "san")
-    n = 700 if tier == "quick" else 6000
-    nsan = 40 if tier == "quick" else 300
+    n = 700 if tier == "quick" else 3500
+    nsan = 40 if tier == "quick" else 160
     res = Result("exploration")
     res.rule = RULE
     base = seed * 1000000 + (0 if tier == "quick" else 50000) + 150000
